@@ -3,7 +3,8 @@
 (* diagonal, identity, zero) and matrix symbols.                            *)
 EXTENDS Integers, Sequences, FiniteSets, TLC, Json, IOUtils, SequencesExt, Randomization, Term
 Thorough == "TIER" \in DOMAIN IOEnv /\ IOEnv.TIER = "thorough"
-Sub(S, n) == IF Thorough \/ Cardinality(S) <= n THEN S ELSE RandomSubset(n, S)
+\* (the thorough tier samples three times as many of each operand set)
+Sub(S, n) == LET m == IF Thorough THEN 3 * n ELSE n IN IF Cardinality(S) <= m THEN S ELSE RandomSubset(m, S)
 x == TSym("x")
 M(k, a, s, n, d) == T(k, a, s, n, d)
 Dense(r, c, a) == M("dense", a, "", r, c)
